@@ -1,5 +1,5 @@
 ---- MODULE MC_Resample ----
 EXTENDS Resample
-QuickKs == {-4, 0, 4}
-DeepKs == {-8, -4, 0, 4, 8}
+QuickKs == {-4, 0, 4, 99}
+DeepKs == {-8, -4, 0, 4, 8, 99}
 ====
